@@ -2591,3 +2591,415 @@ Proof.
   - eapply pres_val_ok; eauto.
   - rewrite (pres_absv s s' k' P Hk'). exact Ek'.
 Qed.
+
+(* ==================================================================== equal? *)
+(* the shape of a plain datum as the machine sees it *)
+Inductive dview (s : vm) : nat -> vcell -> vcell -> Prop :=
+| dv_imm : forall n v c,
+    heap_deref (hp s) v = Ok c ->
+    match c with VBool _ | VChar _ | VNil | VNum _ | VSym _ => True | _ => False end ->
+    absv s v = AImm c -> dview s n v c
+| dv_str : forall n v u t,
+    heap_deref (hp s) v = Ok (VStr u) -> absv s v = ALoc (LStr u) ->
+    tget (strs (st s)) u = Some t -> dview s n v (VStr u)
+| dv_pair : forall m p a d,
+    heap_get (hp s) p = Ok (VPair a d) ->
+    adatum s (absv s (VPtr a)) m -> adatum s (absv s (VPtr d)) m ->
+    target_ok s a -> target_ok s d ->
+    dview s (S m) (VPtr p) (VPair a d)
+| dv_vec : forall m v u l,
+    heap_deref (hp s) v = Ok (VVec u) -> absv s v = ALoc (LVec u) ->
+    tget (vecs (st s)) u = Some l ->
+    Forall (fun x => val_ok s x /\ adatum s (absv s x) m) l ->
+    dview s (S m) v (VVec u).
+
+Lemma datum_view s n v :
+  values_are_refs s -> val_ok s v -> adatum s (absv s v) n ->
+  exists c, heap_deref (hp s) v = Ok c /\ dview s n v c.
+Proof.
+  intros W Hv Hd. destruct (val_deref s v Hv) as (c & Hc & Ha & Hdc).
+  exists c. split; [exact Hc|].
+  pose proof W as (_ & Hpairs & Hvecs & _).
+  inversion Hd as [w n0 Hk Hw | u t n0 Ht Hw | p x d m Hp Hx Hdd Hw | u xs m Hu Hxs Hw]; subst.
+  - (* immediate *)
+    assert (Ec : c = w).
+    { rewrite Ha in Hw. destruct v; cbn [val_ok] in Hv; try contradiction; try (now injection Hw).
+      destruct c; cbn [cell_val data_cell] in *; try contradiction; try discriminate; now injection Hw. }
+    subst w. eapply dv_imm; eauto.
+  - (* string *)
+    assert (Ec : c = VStr u).
+    { rewrite Ha in Hw. destruct v; cbn [val_ok] in Hv; try contradiction; try discriminate.
+      destruct c; cbn [cell_val data_cell] in *; try contradiction; try discriminate. now injection Hw as ->. }
+    subst c. eapply dv_str; eauto.
+  - (* pair *)
+    symmetry in Hw. destruct (absv_pair_inv s v p Hv Hw) as (-> & a & dd & Hg & Hp').
+    rewrite Hp in Hp'. injection Hp' as -> ->.
+    cbn [heap_deref] in Hg, Hc. rewrite Hg in Hc. injection Hc as <-.
+    destruct (Hpairs _ _ _ Hg) as (Ta & Td).
+    eapply dv_pair; eauto.
+  - (* vector *)
+    symmetry in Hw.
+    destruct (vec_registered s v u W Hw) as (l & Hl & Hal & Hfl).
+    rewrite Hu in Hal. injection Hal as ->.
+    assert (Ec : c = VVec u).
+    { rewrite Ha in Hw. destruct v; cbn [val_ok] in Hv; try contradiction; try discriminate.
+      destruct c; cbn [cell_val data_cell] in *; try contradiction; try discriminate. now injection Hw as ->. }
+    subst c. eapply dv_vec; eauto.
+    rewrite Forall_forall in *. intros x Hx. split; [auto|].
+    apply Hxs. apply in_map. exact Hx.
+Qed.
+
+Lemma num_eqv_refl n : num_eqv n n = true.
+Proof.
+  destruct n; cbn [num_eqv num_exact_eqb]; try apply Z.eqb_refl.
+Qed.
+
+Lemma imm_eqv_refl v :
+  match v with VBool _ | VChar _ | VNil | VNum _ | VSym _ => True | _ => False end ->
+  imm_eqv v v = true.
+Proof.
+  destruct v; try contradiction; intros _; cbn [imm_eqv].
+  - apply Bool.eqb_reflx. - apply N.eqb_refl. - reflexivity. - apply num_eqv_refl.
+  - unfold text_eqb. destruct (list_eq_dec N.eq_dec s s); congruence.
+Qed.
+
+Lemma aequal_refl s x n : adatum s x n -> aequal s x x.
+Proof.
+  intros H. destruct H; try apply aeq_same. apply aeq_imm. now apply imm_eqv_refl.
+Qed.
+
+Lemma dview_deref s n v c : dview s n v c -> heap_deref (hp s) v = Ok c.
+Proof. intros H; destruct H; auto. Qed.
+
+Lemma dview_absv s n v c : val_ok s v -> dview s n v c ->
+  absv s v = match v with VPtr q => cell_val q c | _ => AImm c end.
+Proof.
+  intros Hv H. destruct (val_deref s v Hv) as (c' & Hc' & Ha & _).
+  rewrite (dview_deref _ _ _ _ H) in Hc'. injection Hc' as <-. exact Ha.
+Qed.
+
+Lemma str_get_ok s u t : tget (strs (st s)) u = Some t -> str_get u s = ROk t s.
+Proof. intros H. unfold str_get. now rewrite H. Qed.
+
+Lemma text_eqb_true a b : text_eqb a b = true <-> a = b.
+Proof. unfold text_eqb. destruct (list_eq_dec N.eq_dec a b); split; congruence. Qed.
+
+(* the eqv? shortcut of equal?: never a wrong #t, and #t on identical symbols *)
+Lemma eqv_datum s n l r cl cr :
+  values_are_refs s -> sym_interned s -> val_ok s l -> val_ok s r ->
+  adatum s (absv s l) n -> adatum s (absv s r) n ->
+  dview s n l cl -> dview s n r cr ->
+  exists e, eqv l r s = ROk e s /\
+    (e = true -> aequal s (absv s l) (absv s r)) /\
+    (forall a, cl = VSym a -> cr = VSym a -> e = true).
+Proof.
+  intros W Hint Hl Hr Dl Dr Vl Vr.
+  pose proof (dview_deref _ _ _ _ Vl) as Hdl. pose proof (dview_deref _ _ _ _ Vr) as Hdr.
+  pose proof (dview_absv _ _ _ _ Hl Vl) as Hal. pose proof (dview_absv _ _ _ _ Hr Vr) as Har.
+  unfold eqv.
+  destruct (match l, r with VPtr a, VPtr b => a =? b | _, _ => false end) eqn:Esp.
+  - exists true. split; [reflexivity|]. split; [|reflexivity]. intros _.
+    assert (l = r).
+    { destruct l; try discriminate; destruct r; try discriminate. apply N.eqb_eq in Esp. now subst. }
+    subst r. eapply aequal_refl; eauto.
+  - rewrite (bind_ok _ _ _ _ _ (hderef_ok s l cl Hdl)), (bind_ok _ _ _ _ _ (hderef_ok s r cr Hdr)).
+    assert (Hsym : forall a, cl = VSym a -> cr = VSym a -> False).
+    { intros a -> ->.
+      destruct l; cbn [val_ok] in Hl; try contradiction; cbn [heap_deref] in Hdl; try discriminate.
+      destruct r; cbn [val_ok] in Hr; try contradiction; cbn [heap_deref] in Hdr; try discriminate.
+      rewrite (Hint _ _ _ Hdl Hdr), N.eqb_refl in Esp. discriminate. }
+    inversion Vl as [n1 v1 c1 Hd1 Hk1 Ha1 | n1 v1 u1 t1 Hd1 Ha1 Ht1 | m1 p1 a1 d1 Hg1 Hx1 Hy1 Ta1 Td1 | m1 v1 u1 l1 Hd1 Ha1 Ht1 Hf1];
+    inversion Vr as [n2 v2 c2 Hd2 Hk2 Ha2 | n2 v2 u2 t2 Hd2 Ha2 Ht2 | m2 p2 a2 d2 Hg2 Hx2 Hy2 Ta2 Td2 | m2 v2 u2 l2 Hd2 Ha2 Ht2 Hf2];
+    subst.
+    (* imm / imm *)
+    + destruct cl; try contradiction; destruct cr; try contradiction;
+        try (exists false; repeat split; [intros; discriminate | intros; discriminate]).
+      * eexists. split; [reflexivity|]. split; [|intros; discriminate].
+        intros E. rewrite Ha1, Ha2. apply aeq_imm. exact E.
+      * eexists. split; [reflexivity|]. split; [|intros; discriminate].
+        intros E. rewrite Ha1, Ha2. apply aeq_imm. exact E.
+      * exists true. split; [reflexivity|]. split; [|intros; discriminate].
+        intros _. rewrite Ha1, Ha2. now apply aeq_imm.
+      * eexists. split; [reflexivity|]. split; [|intros; discriminate].
+        intros E. rewrite Ha1, Ha2. apply aeq_imm. exact E.
+      * exists false. split; [reflexivity|]. split; [intros; discriminate|].
+        intros a E1 E2. exfalso. eapply Hsym; eauto.
+    (* imm / str, pair, vec *)
+    + exists false. split; [destruct cl; try contradiction; reflexivity|]. split; intros; discriminate.
+    + exists false. split; [destruct cl; try contradiction; reflexivity|]. split; intros; discriminate.
+    + exists false. split; [destruct cl; try contradiction; reflexivity|]. split; intros; discriminate.
+    (* str / * *)
+    + exists false. split; [destruct cr; try contradiction; reflexivity|]. split; intros; discriminate.
+    + rewrite (bind_ok _ _ _ _ _ (str_get_ok s _ _ Ht1)), (bind_ok _ _ _ _ _ (str_get_ok s _ _ Ht2)).
+      eexists. split; [reflexivity|]. split; [|intros; discriminate].
+      intros E. apply text_eqb_true in E. subst. rewrite Ha1, Ha2. eapply aeq_str; eauto.
+    + exists false. repeat split; intros; discriminate.
+    + exists false. repeat split; intros; discriminate.
+    (* pair / * *)
+    + exists false. split; [destruct cr; try contradiction; reflexivity|]. split; intros; discriminate.
+    + exists false. repeat split; intros; discriminate.
+    + eexists. split; [reflexivity|]. split; [|intros; discriminate].
+      intros E. apply andb_prop in E. destruct E as (E1 & E2). apply N.eqb_eq in E1, E2. subst.
+      assert (Ep1 : absv s (VPtr p1) = ALoc (LPair p1)) by (cbn [absv]; now rewrite Hg1).
+      assert (Ep2 : absv s (VPtr p2) = ALoc (LPair p2)) by (cbn [absv]; now rewrite Hg2).
+      rewrite Ep1, Ep2. eapply aeq_pair.
+      * cbn [abs a_pair]. rewrite Hg1. reflexivity.
+      * cbn [abs a_pair]. rewrite Hg2. reflexivity.
+      * eapply aequal_refl; eauto.
+      * eapply aequal_refl; eauto.
+    + exists false. repeat split; intros; discriminate.
+    (* vec / * *)
+    + exists false. split; [destruct cr; try contradiction; reflexivity|]. split; intros; discriminate.
+    + exists false. repeat split; intros; discriminate.
+    + exists false. repeat split; intros; discriminate.
+    + exists false. repeat split; intros; discriminate.
+Qed.
+
+Definition P_equal (s : vm) (n : nat) : Prop :=
+  forall f l r, val_ok s l -> val_ok s r ->
+    adatum s (absv s l) n -> adatum s (absv s r) n -> (2 * n + 1 <= f)%nat ->
+    exists b, equal f l r s = ROk b s /\ (b = true <-> aequal s (absv s l) (absv s r)).
+
+Definition P_cp (s : vm) (n : nat) : Prop :=
+  forall f pl al dl pr ar dr,
+    heap_get (hp s) pl = Ok (VPair al dl) -> heap_get (hp s) pr = Ok (VPair ar dr) ->
+    adatum s (ALoc (LPair pl)) n -> adatum s (ALoc (LPair pr)) n -> (2 * n <= f)%nat ->
+    exists b, compare_pair f (VPair al dl) (VPair ar dr) s = ROk b s /\
+              (b = true <-> aequal s (ALoc (LPair pl)) (ALoc (LPair pr))).
+
+Lemma aequal_pair_iff s pl al dl pr ar dr :
+  heap_get (hp s) pl = Ok (VPair al dl) -> heap_get (hp s) pr = Ok (VPair ar dr) ->
+  forall m, adatum s (absv s (VPtr al)) m -> adatum s (absv s (VPtr dl)) m ->
+  (aequal s (ALoc (LPair pl)) (ALoc (LPair pr)) <->
+   aequal s (absv s (VPtr al)) (absv s (VPtr ar)) /\ aequal s (absv s (VPtr dl)) (absv s (VPtr dr))).
+Proof.
+  intros Hl Hr m Da Dd.
+  assert (El : a_pair (abs s) pl = Some (absv s (VPtr al), absv s (VPtr dl))) by (cbn [abs a_pair]; now rewrite Hl).
+  assert (Er : a_pair (abs s) pr = Some (absv s (VPtr ar), absv s (VPtr dr))) by (cbn [abs a_pair]; now rewrite Hr).
+  split.
+  - intros H. inversion H as [| l0 | p q x d y e Hp Hq Hx Hd | |]; subst.
+    + rewrite Hl in Hr. injection Hr as <- <-. split; eapply aequal_refl; eauto.
+    + rewrite El in Hp. rewrite Er in Hq. injection Hp as <- <-. injection Hq as <- <-. auto.
+  - intros (Ha & Hd). eapply aeq_pair; eauto.
+Qed.
+
+Lemma cp_from s m :
+  values_are_refs s -> P_equal s m -> P_cp s m -> P_cp s (S m).
+Proof.
+  intros W PE PC f pl al dl pr ar dr Hl Hr Dl Dr Hf.
+  destruct f as [|f]; [lia|].
+  pose proof W as (_ & Hpairs & _).
+  destruct (Hpairs _ _ _ Hl) as (Tal & Tdl). destruct (Hpairs _ _ _ Hr) as (Tar & Tdr).
+  assert (El : a_pair (abs s) pl = Some (absv s (VPtr al), absv s (VPtr dl))) by (cbn [abs a_pair]; now rewrite Hl).
+  assert (Er : a_pair (abs s) pr = Some (absv s (VPtr ar), absv s (VPtr dr))) by (cbn [abs a_pair]; now rewrite Hr).
+  inversion Dl as [| | p x d n Hp Hx Hd |]; subst. rewrite El in Hp. injection Hp as <- <-.
+  inversion Dr as [| | p x d n Hp Hx' Hd' |]; subst. rewrite Er in Hp. injection Hp as <- <-.
+  pose proof (aequal_pair_iff s pl al dl pr ar dr Hl Hr m Hx Hd) as Iff.
+  destruct (PE f (VPtr al) (VPtr ar) Tal Tar Hx Hx' ltac:(lia)) as (e & He & Hee).
+  cbn [compare_pair is_pair negb orb as_car as_cdr bindM ret].
+  rewrite (bind_ok _ _ _ _ _ He).
+  destruct e.
+  2: { exists false. split; [reflexivity|]. split; [discriminate|].
+       intros H. apply Iff in H. destruct H as (Ha & _). apply Hee in Ha. discriminate. }
+  cbn [negb bindM ret].
+  destruct Tdl as (Ldl & cdl & Hcdl & _). destruct Tdr as (Ldr & cdr & Hcdr & _).
+  rewrite (bind_ok _ _ _ _ _ (hderef_ok s (VPtr dl) cdl Hcdl)).
+  rewrite (bind_ok _ _ _ _ _ (hderef_ok s (VPtr dr) cdr Hcdr)).
+  assert (Tdl : target_ok s dl) by (destruct (Hpairs _ _ _ Hl); assumption).
+  assert (Tdr : target_ok s dr) by (destruct (Hpairs _ _ _ Hr); assumption).
+  destruct (negb (is_pair cdl) || negb (is_pair cdr)) eqn:Ep.
+  - destruct (PE f (VPtr dl) (VPtr dr) Tdl Tdr Hd Hd' ltac:(lia)) as (b & Hb & Hbb).
+    exists b. split; [exact Hb|]. rewrite Iff. rewrite Hbb. split; [intros; split; auto; now apply Hee | tauto].
+  - apply orb_false_elim in Ep. destruct Ep as (E1 & E2).
+    destruct cdl; try discriminate E1. destruct cdr; try discriminate E2.
+    assert (Al : absv s (VPtr dl) = ALoc (LPair dl)) by (cbn [absv]; now rewrite Hcdl).
+    assert (Ar : absv s (VPtr dr) = ALoc (LPair dr)) by (cbn [absv]; now rewrite Hcdr).
+    assert (Hd2 : adatum s (ALoc (LPair dl)) m) by (rewrite <- Al; exact Hd).
+    assert (Hd2' : adatum s (ALoc (LPair dr)) m) by (rewrite <- Ar; exact Hd').
+    destruct (PC f dl _ _ dr _ _ Hcdl Hcdr Hd2 Hd2' ltac:(lia)) as (b & Hb & Hbb).
+    exists b. split; [exact Hb|]. rewrite Iff, Al, Ar. rewrite Hbb.
+    split; [intros; split; auto; now apply Hee | tauto].
+Qed.
+
+Lemma all2_equal s f m :
+  P_equal s m -> (2 * m + 1 <= f)%nat ->
+  forall xs ys,
+    Forall (fun x => val_ok s x /\ adatum s (absv s x) m) xs ->
+    Forall (fun x => val_ok s x /\ adatum s (absv s x) m) ys ->
+    length xs = length ys ->
+    exists b, all2_m (equal f) xs ys s = ROk b s /\
+      (b = true <-> Forall2 (aequal s) (map (absv s) xs) (map (absv s) ys)).
+Proof.
+  intros PE Hf xs. induction xs as [|x xr IH]; intros ys Hx Hy Hlen.
+  - destruct ys; [|discriminate]. exists true. cbn. split; [reflexivity|]. split; [constructor | reflexivity].
+  - destruct ys as [|y yr]; [discriminate|]. cbn [all2_m map].
+    inversion Hx as [|? ? (Vx & Dx) Hxr]; subst. inversion Hy as [|? ? (Vy & Dy) Hyr]; subst.
+    destruct (PE f x y Vx Vy Dx Dy Hf) as (e & He & Hee).
+    rewrite (bind_ok _ _ _ _ _ He). destruct e.
+    + cbn [length] in Hlen. destruct (IH yr Hxr Hyr ltac:(lia)) as (b & Hb & Hbb).
+      exists b. split; [exact Hb|]. split.
+      * intros E. constructor; [now apply Hee | now apply Hbb].
+      * intros H. inversion H; subst. now apply Hbb.
+    + exists false. split; [reflexivity|]. split; [discriminate|].
+      intros H. inversion H; subst. assert (false = true) by (now apply Hee). discriminate.
+Qed.
+
+Lemma Forall2_len {A B} (R : A -> B -> Prop) l1 l2 : Forall2 R l1 l2 -> length l1 = length l2.
+Proof. induction 1; cbn; auto. Qed.
+
+Lemma Forall2_refl_datum s m l :
+  Forall (fun x => val_ok s x /\ adatum s (absv s x) m) l ->
+  Forall2 (aequal s) (map (absv s) l) (map (absv s) l).
+Proof.
+  induction 1 as [|x r (Vx & Dx) Hr IH]; cbn [map]; constructor; auto. eapply aequal_refl; eauto.
+Qed.
+
+Lemma equal_from s n :
+  values_are_refs s -> sym_interned s ->
+  P_cp s n -> (forall m, n = S m -> P_equal s m) -> P_equal s n.
+Proof.
+  intros W Hint PC PE f l r Hl Hr Dl Dr Hf.
+  destruct f as [|f]; [lia|].
+  destruct (datum_view s n l W Hl Dl) as (cl & Hcl & Vl).
+  destruct (datum_view s n r W Hr Dr) as (cr & Hcr & Vr).
+  destruct (eqv_datum s n l r cl cr W Hint Hl Hr Dl Dr Vl Vr) as (e & He & E1 & E2).
+  cbn [equal]. rewrite (bind_ok _ _ _ _ _ He).
+  destruct e.
+  { exists true. split; [reflexivity|]. split; auto. }
+  rewrite (bind_ok _ _ _ _ _ (hderef_ok s l cl Hcl)), (bind_ok _ _ _ _ _ (hderef_ok s r cr Hcr)).
+  inversion Vl as [n1 v1 c1 Hd1 Hk1 Ha1 | n1 v1 u1 t1 Hd1 Ha1 Ht1 | m1 p1 a1 d1 Hg1 Hx1 Hy1 Ta1 Td1 | m1 v1 u1 l1 Hd1 Ha1 Ht1 Hf1];
+  inversion Vr as [n2 v2 c2 Hd2 Hk2 Ha2 | n2 v2 u2 t2 Hd2 Ha2 Ht2 | m2 p2 a2 d2 Hg2 Hx2 Hy2 Ta2 Td2 | m2 v2 u2 l2 Hd2 Ha2 Ht2 Hf2];
+  subst; repeat match goal with H : S _ = S _ |- _ => injection H as H; subst end.
+  - (* immediate / immediate: eqv on the dereferenced values *)
+    rewrite Ha1, Ha2.
+    destruct cl; try contradiction; destruct cr; try contradiction;
+      try (exists false; split; [reflexivity|]; split; [discriminate|]; intros H; inversion H; subst; discriminate).
+    + eexists. split; [reflexivity|]. split; [intros E; now apply aeq_imm | intros H; inversion H; subst; assumption].
+    + eexists. split; [reflexivity|]. split; [intros E; now apply aeq_imm | intros H; inversion H; subst; assumption].
+    + exists true. split; [reflexivity|]. split; [intros _; now apply aeq_imm | reflexivity].
+    + eexists. split; [reflexivity|]. split; [intros E; now apply aeq_imm | intros H; inversion H; subst; assumption].
+    + exists false. split; [reflexivity|]. split; [discriminate|].
+      intros H. inversion H as [v w Hvw| | | |]; subst. cbn [imm_eqv] in Hvw. apply text_eqb_true in Hvw. subst.
+      eapply E2; reflexivity.
+  - rewrite Ha1, Ha2. exists false.
+    split; [destruct cl; try contradiction; reflexivity|]. split; [discriminate | intros H; inversion H].
+  - rewrite Ha1. assert (Ep : absv s (VPtr p2) = ALoc (LPair p2)) by (cbn [absv]; now rewrite Hg2). rewrite Ep.
+    exists false. split; [destruct cl; try contradiction; reflexivity|]. split; [discriminate | intros H; inversion H].
+  - rewrite Ha1, Ha2. exists false.
+    split; [destruct cl; try contradiction; reflexivity|]. split; [discriminate | intros H; inversion H].
+  - rewrite Ha1, Ha2. exists false.
+    split; [destruct cr; try contradiction; reflexivity|]. split; [discriminate | intros H; inversion H].
+  - (* string / string *)
+    rewrite Ha1, Ha2.
+    rewrite (bind_ok _ _ _ _ _ (str_get_ok s _ _ Ht1)), (bind_ok _ _ _ _ _ (str_get_ok s _ _ Ht2)).
+    eexists. split; [reflexivity|]. split.
+    + intros E. apply text_eqb_true in E. subst. eapply aeq_str; eauto.
+    + intros H. apply text_eqb_true. inversion H; subst; congruence.
+  - rewrite Ha1. assert (Ep : absv s (VPtr p2) = ALoc (LPair p2)) by (cbn [absv]; now rewrite Hg2). rewrite Ep.
+    exists false. split; [reflexivity|]. split; [discriminate | intros H; inversion H].
+  - rewrite Ha1, Ha2. exists false. split; [reflexivity|]. split; [discriminate | intros H; inversion H].
+  - rewrite Ha2. assert (Ep : absv s (VPtr p1) = ALoc (LPair p1)) by (cbn [absv]; now rewrite Hg1). rewrite Ep.
+    exists false. split; [destruct cr; try contradiction; reflexivity|]. split; [discriminate | intros H; inversion H].
+  - rewrite Ha2. assert (Ep : absv s (VPtr p1) = ALoc (LPair p1)) by (cbn [absv]; now rewrite Hg1). rewrite Ep.
+    exists false. split; [reflexivity|]. split; [discriminate | intros H; inversion H].
+  - (* pair / pair *)
+    assert (Ep1 : absv s (VPtr p1) = ALoc (LPair p1)) by (cbn [absv]; now rewrite Hg1).
+    assert (Ep2 : absv s (VPtr p2) = ALoc (LPair p2)) by (cbn [absv]; now rewrite Hg2).
+    rewrite Ep1 in *. rewrite Ep2 in *.
+    exact (PC f p1 a1 d1 p2 a2 d2 Hg1 Hg2 Dl Dr ltac:(lia)).
+  - rewrite Ha2. assert (Ep : absv s (VPtr p1) = ALoc (LPair p1)) by (cbn [absv]; now rewrite Hg1). rewrite Ep.
+    exists false. split; [reflexivity|]. split; [discriminate | intros H; inversion H].
+  - rewrite Ha1, Ha2. exists false.
+    split; [destruct cr; try contradiction; reflexivity|]. split; [discriminate | intros H; inversion H].
+  - rewrite Ha1, Ha2. exists false. split; [reflexivity|]. split; [discriminate | intros H; inversion H].
+  - rewrite Ha1. assert (Ep : absv s (VPtr p2) = ALoc (LPair p2)) by (cbn [absv]; now rewrite Hg2). rewrite Ep.
+    exists false. split; [reflexivity|]. split; [discriminate | intros H; inversion H].
+  - (* vector / vector *)
+    rewrite Ha1, Ha2.
+    rewrite (bind_ok _ _ _ _ _ (vec_get_ok s _ _ Ht1)), (bind_ok _ _ _ _ _ (vec_get_ok s _ _ Ht2)).
+    assert (Av1 : a_vec (abs s) u1 = Some (map (absv s) l1)) by (cbn [abs a_vec]; now rewrite Ht1).
+    assert (Av2 : a_vec (abs s) u2 = Some (map (absv s) l2)) by (cbn [abs a_vec]; now rewrite Ht2).
+    destruct (len l1 =? len l2) eqn:El; cbn [negb].
+    + apply N.eqb_eq in El. unfold len in El. apply Nat2N.inj in El.
+      destruct (all2_equal s f m1 (PE m1 eq_refl) ltac:(lia) l1 l2 Hf1 Hf2 El) as (b & Hb & Hbb).
+      exists b. split; [exact Hb|]. rewrite Hbb. split.
+      * intros H. eapply aeq_vec; eauto.
+      * intros H. inversion H as [| l0 | | u v xs ys Hu Hv HF |]; subst.
+        -- rewrite Ht1 in Ht2. injection Ht2 as <-. eapply Forall2_refl_datum; eauto.
+        -- rewrite Av1 in Hu. rewrite Av2 in Hv. injection Hu as <-. injection Hv as <-. exact HF.
+    + exists false. split; [reflexivity|]. split; [discriminate|].
+      apply N.eqb_neq in El. intros H. exfalso. apply El. unfold len. f_equal.
+      inversion H as [| l0 | | u v xs ys Hu Hv HF |]; subst.
+      * rewrite Ht1 in Ht2. now injection Ht2 as <-.
+      * rewrite Av1 in Hu. rewrite Av2 in Hv. injection Hu as <-. injection Hv as <-.
+        apply Forall2_len in HF. now rewrite !map_length in HF.
+Qed.
+
+Theorem equal_spec s l r n fuel :
+  values_are_refs s -> sym_interned s -> val_ok s l -> val_ok s r ->
+  adatum s (absv s l) n -> adatum s (absv s r) n -> (2 * n + 2 < fuel)%nat ->
+  exists b, equal fuel l r s = ROk b s /\ (b = true <-> aequal s (absv s l) (absv s r)).
+Proof.
+  intros W Hint Hl Hr Dl Dr Hf.
+  assert (Q : forall k, P_equal s k /\ P_cp s k).
+  { induction k as [|k (PE & PC)].
+    - assert (PC0 : P_cp s 0) by (intros f pl al dl pr ar dr _ _ D; inversion D).
+      split; [|exact PC0]. apply equal_from; auto. intros m E; discriminate.
+    - assert (PC1 : P_cp s (S k)) by (apply cp_from; auto).
+      split; [|exact PC1]. apply equal_from; auto. intros m E. injection E as <-. exact PE. }
+  destruct (Q n) as (PE & _). apply PE; auto. lia.
+Qed.
+
+(* adatum and aequal only look at the heap and the Rc tables *)
+Lemma adatum_transfer s t : hp t = hp s -> st t = st s -> forall x n, adatum s x n -> adatum t x n.
+Proof.
+  intros E1 E2. fix IH 3. intros x n H. destruct H as [v n Hk | u tx n Ht | p x d n Hp Hx Hd | u xs n Hu Hxs].
+  - now constructor.
+  - eapply ad_str. rewrite E2. exact Ht.
+  - eapply ad_pair; [rewrite (abs_pair_hp s t p E1); exact Hp | apply IH; exact Hx | apply IH; exact Hd].
+  - eapply ad_vec; [rewrite (abs_vec_hp_st s t u E1 E2); exact Hu|].
+    clear Hu. revert xs Hxs. fix go 2. intros xs F. destruct F as [|y ys Hy Hys]; constructor.
+    + apply IH. exact Hy.
+    + apply go. exact Hys.
+Qed.
+
+Lemma aequal_transfer s t : hp t = hp s -> st t = st s -> forall x y, aequal s x y -> aequal t x y.
+Proof.
+  intros E1 E2. fix IH 3. intros x y H.
+  destruct H as [v w Hvw | l | p q x d y e Hp Hq Hx Hd | u v xs ys Hu Hv HF | u v tx Hu Hv].
+  - now constructor.
+  - constructor.
+  - eapply aeq_pair; [rewrite (abs_pair_hp s t p E1); exact Hp | rewrite (abs_pair_hp s t q E1); exact Hq
+                      | apply IH; exact Hx | apply IH; exact Hd].
+  - eapply aeq_vec; [rewrite (abs_vec_hp_st s t u E1 E2); exact Hu | rewrite (abs_vec_hp_st s t v E1 E2); exact Hv|].
+    clear Hu Hv. revert xs ys HF. fix go 3. intros xs ys F. destruct F as [|a b ar br Hab Hr]; constructor.
+    + apply IH. exact Hab.
+    + apply go. exact Hr.
+  - eapply aeq_str; rewrite E2; eauto.
+Qed.
+
+(* equal? as a builtin: (equal? a b) pops b first, then a *)
+Theorem equal_b_refines fuel s a b n :
+  values_are_refs s -> sym_interned s -> val_ok s a -> val_ok s b ->
+  adatum s (absv s a) n -> adatum s (absv s b) n -> (2 * n + 2 < fuel)%nat ->
+  called_with s [a; b] ->
+  exists res s', equal_b fuel s = ROk (VBool res) s' /\
+    (res = true <-> aequal s (absv s b) (absv s a)) /\ hp s' = hp s /\ st s' = st s.
+Proof.
+  intros W Hint Ha Hb Da Db Hf H. unfold called_with in H. cbn [len length rev app N.of_nat Pos.of_succ_nat] in H.
+  set (s1 := with_sp s (sp s - 1)).
+  set (s2 := with_sp s1 (sp s1 - 1)).
+  set (s3 := with_sp s2 (sp s2 - 1)).
+  pose proof (stack_top_tail _ _ _ _ H) as H1.
+  pose proof (stack_top_tail _ _ _ _ H1) as H2.
+  assert (Hint3 : sym_interned s3) by exact Hint.
+  destruct (equal_spec s3 b a n fuel W Hint3 Hb Ha
+              (adatum_transfer s s3 eq_refl eq_refl _ _ Db) (adatum_transfer s s3 eq_refl eq_refl _ _ Da) Hf)
+    as (res & E & Hres).
+  exists res, s3. refine (conj _ (conj _ (conj eq_refl eq_refl))).
+  - unfold equal_b. pop_argc_tac H s 2 2 (Some 2). fold s1.
+    rewrite (bind_ok _ _ _ _ _ (pop_raw_top s1 b _ H1)). fold s2.
+    rewrite (bind_ok _ _ _ _ _ (pop_raw_top s2 a _ H2)). fold s3.
+    rewrite (bind_ok _ _ _ _ _ E). reflexivity.
+  - rewrite Hres. split; apply aequal_transfer; reflexivity.
+Qed.
